@@ -1,4 +1,5 @@
 import MosnVerif.Lemmas.Redact
+import MosnVerif.Lemmas.RawJson
 /-!
 # C20 — the admin config dump never leaks TLS private keys (property theorems only)
 
@@ -265,5 +266,163 @@ example : covers (withField "ListenerConfig" ⟨"Extra", "extra", true, false, .
 example : covers G fuel fiTop (.named "effectiveConfig")
     (.fields [("MosnConfig", redactedMosnConfigV), ("Listener", redactedListenersV), ("ExtendConfigs", extendsV)]) = false := by
   decide +kernel
+
+/-! ## the raw-bytes level: `redactedRawJSON`
+
+An extend config is a `json.RawMessage`: the bytes of the file, decoded only by its consumer.  The statements
+above are about the DECODED document of a hole; the ones below close the gap to the bytes: `rawProg` is the
+statement structure of `redactedRawJSON` **regenerated** from redact.go (`Gen.RawRedact.steps`: every early
+`return raw` with its condition, then the decode / walk / encode pipeline), `raw_checks` the closed Boolean that it is
+the bare pipeline behind `len(raw) == 0`, that it is what `redactedExtends` applies to every `ExtendConfig.Config`,
+that the key constant is only ever compared with a decoded key, and that every raw hole of the regenerated graph
+is that one or on the plain list.  A guard that looks at the raw bytes (the "fast path" `!bytes.Contains(
+bytes.ToLower(raw), "private_key")`) makes `raw_checks`, hence every theorem below, fail to check. -/
+section Raw
+open MosnVerif.Model.RawJson
+
+/-- the regenerated structure of `redactedRawJSON`, its call sites and the raw holes of the graph -/
+theorem raw_checks : rawChecks = true := by decide +kernel
+
+private theorem rawProg_bare : rawProg.bare = true := by
+  have h := raw_checks
+  simp only [rawChecks, Bool.and_eq_true] at h
+  simp only [Prog.bare, Bool.and_eq_true]
+  exact ⟨h.1.1.1.1.1.1.1, h.1.1.1.1.1.1.2⟩
+
+/-- **redaction is a function of the decoded document, never of its spelling**: the output is the raw text itself
+when the decoded first value holds nothing to redact (or nothing decodes), and otherwise the encoding of
+`redactJSONValue` of the decoded value — for every text, every verdict of unrecognised conditions, every encoder. -/
+theorem raw_refines_walk (unk : String → Text → Bool) (enc : Json → Option Text) (raw : Text) :
+    redactedRaw rawProg unk enc raw = walkOut enc raw (parseFirst raw) :=
+  redactedRaw_bare rawProg rawProg_bare unk enc raw
+
+/-- **raw_hole_clean**: for every raw text (every spelling of every key, valid JSON or not): whenever the output of
+`redactedRawJSON` is a JSON document at all (otherwise json.Marshal of the dump fails: no body), the document a
+consumer decodes from it holds, under every key that decodes and folds to `private_key`, at any depth, nothing but
+the empty string or the placeholder. `enc` = json.Marshal on decoded trees, any function with the contract `EncOK`. -/
+theorem raw_hole_clean (unk : String → Text → Bool) (enc : Json → Option Text) (henc : EncOK enc) (raw : Text)
+    (j' : Json) (h : parseDoc (redactedRaw rawProg unk enc raw) = some j') : cleanJ false j' = true := by
+  rw [raw_refines_walk] at h
+  exact walkOut_clean enc henc raw j' h
+
+/-- two texts that decode alike are treated alike: both are returned as they are, or both become the same bytes -/
+theorem raw_spelling_irrelevant (unk : String → Text → Bool) (enc : Json → Option Text) (r1 r2 : Text)
+    (h : parseFirst r1 = parseFirst r2) :
+    (redactedRaw rawProg unk enc r1 = r1 ∧ redactedRaw rawProg unk enc r2 = r2) ∨
+    redactedRaw rawProg unk enc r1 = redactedRaw rawProg unk enc r2 := by
+  rw [raw_refines_walk, raw_refines_walk, ← h]
+  cases hf : parseFirst r1 with
+  | none => exact Or.inl ⟨rfl, rfl⟩
+  | some j =>
+    simp only [walkOut]
+    by_cases hc : cleanJ false j = true
+    · simp [hc]
+    · simp only [hc, Bool.false_eq_true, if_false]
+      cases he : enc (redJ false j) with
+      | none => exact Or.inl ⟨rfl, rfl⟩
+      | some t => exact Or.inr rfl
+
+/-- every legal spelling of a key — each character written as itself, as `\uXXXX` with hex digits of either case,
+or as a short escape — decodes to the key -/
+theorem key_spellings_decode (sps : List Sp) (h : sps.all Sp.ok = true) (rest : Text) :
+    decStr (spell sps ++ '"' :: rest) [] = some (sps.map Sp.char, rest) := decStr_spell sps h rest
+
+/-- the document `{"<key>":"<value>"}` in **every** spelling of a key that folds to `private_key` and of a value that
+is a real key: the output is the encoding of the document holding the placeholder — never the raw text. -/
+theorem spelled_key_redacted (unk : String → Text → Bool) (enc : Json → Option Text) (henc : EncOK enc)
+    (ks vs : List Sp) (hk : ks.all Sp.ok = true) (hv : vs.all Sp.ok = true)
+    (hpk : isPK (String.ofList (ks.map Sp.char)) = true) (hval : keyOk (String.ofList (vs.map Sp.char)) = false) :
+    enc (.obj [(String.ofList (ks.map Sp.char), .str placeholder)]) =
+      some (redactedRaw rawProg unk enc (keyDoc ks vs)) := by
+  rw [raw_refines_walk, parseFirst_keyDoc ks vs hk hv]
+  have hne : String.ofList (vs.map Sp.char) ≠ "" := by
+    intro e; simp [keyOk, e] at hval
+  have hcl : cleanJ false (.obj [(String.ofList (ks.map Sp.char), .str (String.ofList (vs.map Sp.char)))]) = false := by
+    simp [cleanJ, cleanJO, hpk, hval]
+  have hred : redJ false (.obj [(String.ofList (ks.map Sp.char), .str (String.ofList (vs.map Sp.char)))]) =
+      .obj [(String.ofList (ks.map Sp.char), .str placeholder)] := by
+    simp [redJ, redJO, hpk, hne]
+  simp only [walkOut, hcl, Bool.false_eq_true, if_false, hred]
+  cases he : enc (.obj [(String.ofList (ks.map Sp.char), .str placeholder)]) with
+  | none => have := henc.1 (.obj [(String.ofList (ks.map Sp.char), .str placeholder)]); simp [he] at this
+  | some t => simp
+
+/-! ### non-vacuity and the witness for a raw-bytes guard -/
+
+private def encR : Json → Option Text := fun j => some (render j)
+private def noUnk : String → Text → Bool := fun _ _ => false
+
+/-- an encoder with the contract exists (the constant one); the concrete compact renderer `render` is exercised on the
+documents below -/
+example : EncOK (fun _ => some "null".toList) := by
+  refine ⟨fun _ => rfl, ?_⟩
+  intro j t j' he hp
+  simp only [Option.some.injEq] at he
+  subst he
+  have : j' = .null := by
+    have : parseDoc "null".toList = some .null := by rfl
+    rw [this] at hp; simpa using hp.symm
+  subst this
+  simp [pkStrings]
+
+/-- the key spelled with an escape for `_`, for `p`, for every character, in mixed case with escapes, with the
+KELVIN SIGN for `k`: all decode to a key that folds to `private_key` -/
+private def spUnderscore : List Sp :=
+  [.plain 'p', .plain 'r', .plain 'i', .plain 'v', .plain 'a', .plain 't', .plain 'e', .uni '_' false false false true,
+   .plain 'k', .plain 'e', .plain 'y']
+private def spAll : List Sp := "Private_KEY".toList.map (fun c => Sp.uni c true false true false)
+private def spKelvin : List Sp := "private_".toList.map Sp.plain ++ [.uni (Char.ofNat 0x212A) false false false true, .plain 'e', .plain 'y']
+example : spell spUnderscore = "private\\u005Fkey".toList ∧ spUnderscore.all Sp.ok = true ∧
+    isPK (String.ofList (spUnderscore.map Sp.char)) = true := by decide +kernel
+example : spAll.all Sp.ok = true ∧ isPK (String.ofList (spAll.map Sp.char)) = true ∧
+    spKelvin.all Sp.ok = true ∧ isPK (String.ofList (spKelvin.map Sp.char)) = true := by decide +kernel
+
+private def docEsc : Text := "{\"servers\":[{\"tls_context\":{\"status\":true,\"\\u0070rivate\\u005fkey\":\"KEY\"}}]}".toList
+private def docPlain : Text := "{\"servers\":[{\"tls_context\":{\"status\":true,\"Private_Key\":\"KEY\"}}]}".toList
+
+/-- on the regenerated program both spellings are redacted, and the output decodes clean (stated through
+`raw_refines_walk`, so that the evaluation does not depend on the regenerated list) -/
+example : (parseDoc (redactedRaw rawProg noUnk encR docEsc)).map (cleanJ false) = some true ∧
+    (parseDoc (redactedRaw rawProg noUnk encR docPlain)).map (cleanJ false) = some true ∧
+    redactedRaw rawProg noUnk encR docEsc ≠ docEsc := by
+  simp only [raw_refines_walk]
+  decide +kernel
+
+/-- **witness for the byte-test fast path**: with the extra guard `!bytes.Contains(bytes.ToLower(raw), "private_key")`
+in front of the decode, the check over the regenerated structure fails, the plain and case-variant spelling is still
+redacted, and the escaped spelling comes back as the raw text, whose decoding shows the key. -/
+private def fastPathSteps : Steps :=
+  ("return-if", ["len0", "raw"]) :: ("return-if", ["not-contains-lower:private_key", "raw"]) :: pipeline
+example : (progOf fastPathSteps).bare = false ∧ (progOf fastPathSteps).piped = true := by decide +kernel
+example : (parseDoc (redactedRaw (progOf fastPathSteps) noUnk encR docPlain)).map (cleanJ false) = some true ∧
+    redactedRaw (progOf fastPathSteps) noUnk encR docEsc = docEsc ∧
+    (parseDoc (redactedRaw (progOf fastPathSteps) noUnk encR docEsc)).map (cleanJ false) = some false := by decide +kernel
+
+/-! ### copy on write inside a decoded hole
+
+`frame` treats the replacement of a hole as one step; the walker below it works on a tree of maps and slices that a
+filter's `Config` SHARES with the live configuration.  `walkCfg` is read off the regenerated list of the walker's
+stores: a store whose container is not allocated by the same call (`x[i] = ne` instead of `cp[i] = ne`) sets a flag. -/
+
+/-- every store of `redactJSONValue` goes to a container the call allocated with `make` -/
+theorem walk_checks : walkChecks = true := by decide +kernel
+
+/-- **the walk writes no cell of the tree it is given** — for every document: redacted elements of arrays and members
+of objects are stored into copies, so the live filter config (and what is persisted from it) keeps its keys. -/
+theorem hole_walk_frame (j : Json) : wWrites walkCfg j = 0 := by
+  have h := walk_checks
+  simp only [walkChecks, beq_iff_eq] at h
+  rw [h]; exact wWrites_cow j
+
+/-- witness: a walker whose array clause stores the redacted element back into the slice it was given writes the
+live tree exactly where a key sits below an array (and only there) -/
+private def docArr : Json := .obj [("servers", .arr [.obj [("tls_context", .obj [("private_key", .str "KEY")])], .str "x"])]
+private def docNoArr : Json := .obj [("tls_context", .obj [("private_key", .str "KEY")])]
+example : walkCfgOf [("[]interface{}", "x", "x[i] = ne"), ("map[string]interface{}", "cp", "cp[k] = ne")]
+    ["cp = make(map[string]interface{}, len(x))"] = ⟨false, true, false⟩ := by decide +kernel
+example : wWrites ⟨false, true, false⟩ docArr = 1 ∧ wWrites ⟨false, true, false⟩ docNoArr = 0 ∧
+    cleanJ false docArr = false := by decide +kernel
+
+end Raw
 
 end MosnVerif.Props.C20
